@@ -902,6 +902,12 @@ func (w *walker) binop(s *state, op token.Token, x, y *Term, typ types.Type) *Te
 	case token.LEQ:
 		return not(mk("<", y, x))
 	}
+	// x + x is x << 1
+	if op == token.ADD && !x.IsConst() && x.String() == y.String() {
+		if b, ok := typ.Underlying().(*types.Basic); ok && b.Info()&types.IsInteger != 0 {
+			return mk("<<", x, constTerm(constant.MakeInt64(1)))
+		}
+	}
 	// x * 2^k is x << k (one normal form for scaling by a power of two)
 	if op == token.MUL {
 		for _, pr := range [][2]*Term{{x, y}, {y, x}} {
